@@ -21,10 +21,9 @@ import (
 //	                                  the 64 bits of the exponent's limb (a concrete loop bound, a
 //	                                  branch-free body; bits that are syntactically zero cost nothing); an exponent without limbs
 //	                                  (announced <= 0) gives 1 mod m
-//	Nat.ModInverse(x, m)              the inverse of x mod m for a unit x (m odd): natively extended
-//	                                  Euclid; under the interpreter a fresh value w with
-//	                                  w < m, w * x = 1 (mod m) (unique, so nothing is lost); x not a unit:
-//	                                  the model is left (saferith returns garbage)
+//	Nat.ModInverse(x, m)              the inverse of x mod m for a unit x (m odd): x^(lambda(m)-1) mod m,
+//	                                  lambda computed from the concrete m; x not a unit: the model is
+//	                                  left (saferith returns garbage) - recorded in verifEscapedInv
 //	Nat.ExpI(x, i, m)                 the literal composition Exp(|i|), ModInverse, CondAssign(sign)
 //	Nat.Coprime(y) / IsUnit(m)        gcd = 1, the SECOND operand factored by trial division (it is a
 //	                                  concrete modulus / prime on every route here); both without limbs: 0
@@ -103,7 +102,7 @@ func verifMNatModAdd(z, x, y *verifMNat, m *verifMMod) {
 	}
 	a, b := verifMRed(x, m), verifMRed(y, m)
 	s := a + b
-	z.v, z.ann, z.red, z.lb, z.ub = verifIteU64(s >= m.v, s-m.v, s), m.bits, m, 0, m.v-1
+	z.v, z.ann, z.red, z.lb, z.ub, z.um = verifIteU64(s >= m.v, s-m.v, s), m.bits, m, 0, m.v-1, 0
 }
 
 func verifMNatModSub(z, x, y *verifMNat, m *verifMMod) {
@@ -111,18 +110,26 @@ func verifMNatModSub(z, x, y *verifMNat, m *verifMMod) {
 		verifMEscapeIf(true)
 	}
 	a, b := verifMRed(x, m), verifMRed(y, m)
-	z.v, z.ann, z.red, z.lb, z.ub = verifIteU64(a >= b, a-b, a+m.v-b), m.bits, m, 0, m.v-1
+	z.v, z.ann, z.red, z.lb, z.ub, z.um = verifIteU64(a >= b, a-b, a+m.v-b), m.bits, m, 0, m.v-1, 0
 }
 
 func verifMNatModNeg(z, x *verifMNat, m *verifMMod) {
+	um := uint64(0)
+	if verifMUnitFor(x, m.v) && x.ann > 0 {
+		um = m.v
+	}
 	a := verifMRed(x, m)
-	z.v, z.ann, z.red, z.lb, z.ub = verifIteU64(a == 0, 0, m.v-a), m.bits, m, 0, m.v-1
+	z.v, z.ann, z.red, z.lb, z.ub, z.um = verifIteU64(a == 0, 0, m.v-a), m.bits, m, 0, m.v-1, um
 }
 
 func verifMNatExp(z, x, y *verifMNat, m *verifMMod) {
 	if m.v&1 == 0 || m.v>>32 != 0 {
 		verifMEscapeIf(true) // saferith's expEven: not modelled; residues are multiplied in 64 bits
 		return
+	}
+	um := uint64(0)
+	if verifMUnitFor(x, m.v) && x.ann > 0 {
+		um = m.v
 	}
 	b := verifMRed(x, m)
 	// saferith walks over every LIMB of the exponent: for a value below 2^64 that is all 64 bits of
@@ -141,7 +148,7 @@ func verifMNatExp(z, x, y *verifMNat, m *verifMMod) {
 			sq = verifMMulMod(sq, sq, m.v)
 		}
 	}
-	z.v, z.ann, z.red, z.lb, z.ub = acc, m.bits, m, 0, m.v-1
+	z.v, z.ann, z.red, z.lb, z.ub, z.um = acc, m.bits, m, 0, m.v-1, um
 }
 
 // verifMPrimeFactors: the distinct prime factors of a CONCRETE v >= 2 (a symbolic v would fork
@@ -180,39 +187,66 @@ func verifMCoprimeTo(x, c uint64) bool {
 	return ok == 1
 }
 
-// verifMInverse: the inverse of the unit x (reduced) modulo m.
-//
-// verifSymPhase (ghost, set by the harness once the key - all concrete - has been built): false =
-// extended Euclid on the concrete operands (a symbolic operand would fork without bound); true =
-// the inverse is a fresh solver value constrained by w * x = 1 (mod m).
-var verifSymPhase bool
-
-// verifSerialMul (ghost, set by the harness): encoding of residue multiplication, see verifMMulMod.
-var verifSerialMul bool
-
-func verifMInverse(x, m uint64, unit bool) uint64 {
-	if verifNative() || !verifSymPhase {
-		if m == 1 || !unit {
-			return 0
-		}
-		// extended Euclid on int64 (m < 2^32)
-		a, b := int64(x%m), int64(m)
-		u, v := int64(1), int64(0)
-		for b != 0 {
-			q := a / b
-			a, b = b, a-q*b
-			u, v = v, u-q*v
-		}
-		if u < 0 {
-			u += int64(m)
-		}
-		return uint64(u)
+// verifMInverse: the inverse of the unit x (reduced) modulo an odd m: x^(lambda(m)-1) mod m, a
+// FUNCTION of x (no solver value, no assumption), so that two routes which invert the same number
+// get the same term and "inverse times x = 1" is a statement the solver checks (H_paillier_opinv)
+// instead of one it is given. lambda is computed from the concrete m.
+func verifMInverse(x, m uint64) uint64 {
+	if m == 1 {
+		return 0
 	}
-	// x is not wrapped into ite(unit, x, 1): the product below is then the very term a harness writes
-	// for "w times x", and "= 1" follows from the assumption without any reasoning about multipliers
-	w := verifU64() & 0xffffffff
-	verifAssume(verifB2U(!unit)|(verifB2U(w < m)&verifB2U(verifMMulMod(w, x, m) == 1%m)) == 1)
-	return w
+	return verifMPowMod(x, verifMCarmichael(m)-1, m)
+}
+
+// verifMInverseEuclid: extended Euclid on CONCRETE operands (modInvEven: inverses modulo p-1, q-1
+// while the key is built).
+func verifMInverseEuclid(x, m uint64) uint64 {
+	if m == 1 {
+		return 0
+	}
+	a, b := int64(x%m), int64(m)
+	u, v := int64(1), int64(0)
+	for b != 0 {
+		q := a / b
+		a, b = b, a-q*b
+		u, v = v, u-q*v
+	}
+	if u < 0 {
+		u += int64(m)
+	}
+	return uint64(u)
+}
+
+// verifMCarmichael: lambda(m) for a concrete odd m > 1 (lcm of p^(e-1) (p-1) over the prime powers).
+func verifMCarmichael(m uint64) uint64 {
+	l := uint64(1)
+	for _, p := range verifMPrimeFactors(m) {
+		t := p - 1
+		for q := m / p; q%p == 0; q /= p {
+			t *= p
+		}
+		g, a, b := uint64(0), l, t
+		for b != 0 {
+			a, b = b, a%b
+		}
+		g = a
+		l = l / g * t
+	}
+	return l
+}
+
+// verifMPowMod: x^e mod m for a concrete exponent e (right to left, branch-free in x).
+func verifMPowMod(x, e, m uint64) uint64 {
+	acc, sq := uint64(1)%m, x
+	for ; e != 0; e >>= 1 {
+		if e&1 == 1 {
+			acc = verifMMulMod(acc, sq, m)
+		}
+		if e>>1 != 0 {
+			sq = verifMMulMod(sq, sq, m)
+		}
+	}
+	return acc
 }
 
 func verifMNatModInverse(z, x *verifMNat, m *verifMMod) {
@@ -231,10 +265,18 @@ func verifMNatModInverse(z, x *verifMNat, m *verifMMod) {
 		// Mod copies an operand already marked reduced by m, limbs and all; invert then refuses
 		panic("invert: mismatched arguments")
 	}
+	known := verifMUnitFor(x, m.v)
 	a := verifMRed(x, m)
-	unit := verifMCoprimeTo(a, m.v)
-	verifMEscapeIf(!unit) // for a non-unit the value is irrelevant: the model has been left
-	z.v, z.ann, z.red, z.lb, z.ub = verifMInverse(a, m.v, unit)&(uint64(1)<<uint(bits.Len64(m.v))-1), m.bits, m, 0, m.v-1
+	unit := true
+	if !known {
+		unit = verifMCoprimeTo(a, m.v)
+		verifEscapedInv |= verifB2U(!unit) // for a non-unit the value is irrelevant: the model has been left
+	}
+	um := uint64(0)
+	if known {
+		um = m.v
+	}
+	z.v, z.ann, z.red, z.lb, z.ub, z.um = verifMInverse(a, m.v), m.bits, m, 0, m.v-1, um
 }
 
 func verifMNatExpI(z, x *verifMNat, i *verifMInt, m *verifMMod) {
@@ -247,16 +289,25 @@ func verifMNatExpI(z, x *verifMNat, i *verifMInt, m *verifMMod) {
 	// unit matters only for a negative exponent. The power of a unit is a unit and the power of a
 	// non-unit is not (except the zeroth), so the test is made on the BASE, where a harness that
 	// assumed "the base is a unit" finds it decided.
-	unit := verifMCoprimeTo(verifMRed(x, m), m.v)
+	unit := true
+	if !(verifMUnitFor(x, m.v) && x.ann > 0) {
+		unit = verifMCoprimeTo(verifMRed(x, m), m.v)
+	}
 	verifMNatExp(z, x, &i.abs, m)
-	verifEscaped |= (1 ^ verifB2U(unit)) & verifB2U(i.neg == 1)
-	inv := verifMInverse(z.v, m.v, unit) & (uint64(1)<<uint(bits.Len64(m.v)) - 1)
+	verifEscapedInv |= (1 ^ verifB2U(unit)) & verifB2U(i.neg == 1)
+	if i.neg == 0 { // (concrete in every harness: the sign of a scalar is a fork) the inverse is discarded
+		return
+	}
+	inv := verifMInverse(z.v, m.v)
 	z.v = verifIteU64(i.neg == 1, inv, z.v)
 }
 
 func verifMNatCoprime(x, y *verifMNat) saferith.Choice {
 	if verifMMaxAnn(x, y) <= 0 {
 		return 0
+	}
+	if x.ann > 0 && y.ann > 0 && y.lb == y.ub && y.lb > 1 && verifMUnitFor(x, y.lb) {
+		return 1 // decided by the mark (y is a known constant)
 	}
 	xv, yv := x.v, y.v
 	if x.ann <= 0 {
@@ -304,6 +355,14 @@ func verifCNatModNeg(z, x *saferith.Nat, m *saferith.Modulus) *saferith.Nat {
 	verifMNatModNeg(verifNatRec(z), verifNatRec(x), verifModRec(m))
 	return z
 }
+
+// verifEscapedInv (ghost): like verifEscaped, for one cause only - ModInverse / ExpI with a negative
+// exponent was handed a number that is not (known or provably) a unit. Kept apart because
+// OddPrimeSquareFactors.ModExpI inverts the power unconditionally and discards the inverse for a
+// non-negative exponent: a harness with a non-negative symbolic scalar may leave this flag out of
+// its exactness obligation (and says so); every other harness asserts both flags.
+var verifEscapedInv uint64
+
 // ghost log of the exponentiations (modulus, reduced base, exponent), switched on by a harness
 type verifExpRec struct{ m, b, e uint64 }
 
@@ -407,7 +466,7 @@ func verifCNumctModInvEven(m *numct.ModulusBasic, out, x *numct.Nat) ct.Bool {
 	}
 	verifMEscapeIf(xv>>32 != 0)
 	o := verifNatRec((*saferith.Nat)(out))
-	o.v, o.ann, o.red, o.lb, o.ub = verifMInverse(uint64(uint32(xv)%uint32(mr.v)), mr.v, true), mr.bits, nil, 0, mr.v-1
+	o.v, o.ann, o.red, o.lb, o.ub = verifMInverseEuclid(uint64(uint32(xv)%uint32(mr.v)), mr.v), mr.bits, nil, 0, mr.v-1
 	return ct.True
 }
 
